@@ -74,6 +74,16 @@ def clipPre (r : IndexRange) (maxIndex : Nat) : Outcome IndexRange :=
 def clip (r : IndexRange) (maxIndex : Nat) : IndexRange :=
   { r with length := min (min (r.start + r.length) usizeMax) maxIndex - r.start }
 
+/-- `From<IndexRange> for Range<usize>` as written: `start .. start + length` (unchecked sum:
+    the dev profile panics when it exceeds `usize::MAX`) -/
+def toStdRangePre (r : IndexRange) : Outcome (Nat × Nat) :=
+  match cadd r.start r.length with
+  | .ok e => .ok (r.start, e)
+  | .panic k => .panic k
+
+/-- `From<Range<usize>> for IndexRange`: `IndexRange::new(start, end.saturating_sub(start))` -/
+def ofStdRange (start stop : Nat) : IndexRange := ⟨start, stop - start⟩
+
 end IndexRange
 
 /-- The few places where the pinned code and the repaired code differ are collected in this
